@@ -247,6 +247,31 @@ func init() {
 		zz + "Ite8": func(r *Run, fn *ssa.Function, a []Value) Value {
 			return r.ts.Ite(a[0].(*Term), a[1].(*Term), a[2].(*Term))
 		},
+		zz + "Ite64": func(r *Run, fn *ssa.Function, a []Value) Value {
+			return r.ts.Ite(a[0].(*Term), a[1].(*Term), a[2].(*Term))
+		},
+		// sort.Ints as a branch-free compare-exchange network (bubble network, n <= 32)
+		"sort.Ints": func(r *Run, fn *ssa.Function, a []Value) Value {
+			s := a[0].(*SliceV)
+			if s.len > 32 {
+				panic(unsupported("sort.Ints of more than 32 elements"))
+			}
+			if s.len < 2 {
+				return nil
+			}
+			arr := r.sliceArrW(s)
+			ts := r.ts
+			for i := 0; i < s.len; i++ {
+				for j := 0; j+1 < s.len-i; j++ {
+					x := arr.e[s.off+j].(*Term)
+					y := arr.e[s.off+j+1].(*Term)
+					sw := ts.Slt(y, x)
+					arr.e[s.off+j] = ts.Ite(sw, y, x)
+					arr.e[s.off+j+1] = ts.Ite(sw, x, y)
+				}
+			}
+			return nil
+		},
 
 		// ------------------------------------------------------------------ sync
 		"(*sync.Mutex).Lock":      lockFn(1, false),
